@@ -41,7 +41,9 @@ CONSTANTS N,          \* number of headers of the main chain (ids 1..N, number =
           Alphabet,   \* "full" | "small"
           Noops       \* TRUE: calls that the code answers without doing anything are part of the alphabet
 
-VARIABLES head,       \* q.headerHead: id of the last header Schedule accepted (0 = none yet)
+VARIABLES base,       \* origin of the current sync session (number, relative to the first session's origin)
+          sess,       \* number of sessions started so far
+          head,       \* q.headerHead: id of the last header Schedule accepted (0 = none yet)
           acc,        \* OBSERVABLE: the headers Schedule accepted for download
           pool,       \* blockTaskPool (key set)
           queue,      \* blockTaskQueue: header -> multiplicity (a priority queue may hold an item twice)
@@ -55,7 +57,7 @@ VARIABLES head,       \* q.headerHead: id of the last header Schedule accepted (
           delivered,  \* OBSERVABLE: sequence of [h, b] handed out by Results
           old,        \* generation only: peer -> the request it most recently lost (for late deliveries)
           hist        \* generation only
-vars == <<head, acc, pool, queue, pend, done, slot, offset, lacks, faults, broken, delivered, old, hist>>
+vars == <<base, sess, head, acc, pool, queue, pend, done, slot, offset, lacks, faults, broken, delivered, old, hist>>
 
 Hdrs == 1..(N + FL)
 Num(h) == IF h <= N THEN h ELSE ForkFrom + (h - N - 1)
@@ -69,9 +71,10 @@ Body == [k \in Hdrs |-> (BodyCode \div Pow10(k - 1)) % 10]
 NilSlot == [a |-> FALSE, p |-> 0, b |-> -1, hd |-> 0]
 Gen == GenMode # "none"
 
+\* (delivered is the observable of the CURRENT session: every clause is stated per session)
 InitRec == [op |-> "Init", n |-> N, fl |-> FL, forkfrom |-> ForkFrom, body |-> Body, w |-> W, peers |-> Peers, maxc |-> MaxCount, maxp |-> MaxProc]
 
-Init == /\ head = 0 /\ acc = {} /\ pool = {} /\ queue = [h \in Hdrs |-> 0] /\ pend = [p \in Peers |-> <<>>] /\ done = {}
+Init == /\ base = 0 /\ sess = 1 /\ head = 0 /\ acc = {} /\ pool = {} /\ queue = [h \in Hdrs |-> 0] /\ pend = [p \in Peers |-> <<>>] /\ done = {}
         /\ slot = [n \in Nums |-> NilSlot] /\ offset = 0 /\ lacks = [p \in Peers |-> {}] /\ faults = 0
         /\ broken = FALSE /\ delivered = <<>> /\ old = [p \in Peers |-> <<>>]
         /\ hist = IF Gen THEN <<InitRec>> ELSE <<>>
@@ -99,13 +102,13 @@ Schedule(v, chunk, from) ==
    /\ Tick([op |-> "Schedule", v |-> v, chunk |-> chunk, from |-> from])
    /\ LET r == Sch([head |-> head, pool |-> pool, queue |-> queue, acc |-> acc], chunk, 1, from) IN
       head' = r.head /\ pool' = r.pool /\ queue' = r.queue /\ acc' = r.acc
-   /\ UNCHANGED <<pend, done, slot, offset, lacks, faults, broken, delivered, old>>
+   /\ UNCHANGED <<base, sess, pend, done, slot, offset, lacks, faults, broken, delivered, old>>
 
 \* what callers offer.  Honest: the next k headers of the main chain.  Otherwise: such a chunk with one header that does not
 \* link (a fork header of that number) or has the wrong number (the previous header again); a competing fork that starts
 \* below what is queued; a chunk that starts beyond the head.  The last two only once something is queued (the very first
 \* batch of a sync defines the chain and always starts at the origin).
-Nxt == IF head = 0 THEN 1 ELSE Num(head) + 1
+Nxt == IF head = 0 THEN base + 1 ELSE Num(head) + 1
 MainChunk(from, k) == [i \in 1..k |-> from + i - 1]
 OnMain == head = 0 \/ head <= N
 \* fork headers that do not link to the main chain (the first fork header does: its parent is a main header)
@@ -163,7 +166,7 @@ Reserve(p, cnt) ==
            /\ slot' = r.slot /\ done' = r.done /\ pool' = r.pool
            /\ pend' = IF r.err \/ r.send = <<>> THEN pend ELSE [pend EXCEPT ![p] = r.send]
            /\ broken' = (broken \/ r.err)
-   /\ UNCHANGED <<head, acc, offset, lacks, faults, delivered, old>>
+   /\ UNCHANGED <<base, sess, head, acc, offset, lacks, faults, delivered, old>>
 
 \* ---------------------------------------------------------------- Deliver
 BodyOf(x) == IF x >= 1 THEN Body[x] ELSE IF x = -1 THEN 0 ELSE -7
@@ -217,7 +220,7 @@ Deliver(p, v) ==
    /\ Tick([op |-> "Deliver", p |-> p, v |-> v[1], items |-> v[2]])
    /\ IF IsFault(p, v) THEN Charge ELSE faults' = faults
    /\ DeliverCore(p, v[2])
-   /\ UNCHANGED <<head, acc, offset, broken, delivered, old>>
+   /\ UNCHANGED <<base, sess, head, acc, offset, broken, delivered, old>>
 
 \* ---------------------------------------------------------------- cancel / expire / revoke
 GiveBack(p, name) ==
@@ -228,7 +231,7 @@ GiveBack(p, name) ==
    /\ queue' = PushAll(queue, pend[p])
    /\ pend' = [pend EXCEPT ![p] = <<>>]
    /\ old' = IF Gen /\ pend[p] # <<>> THEN [old EXCEPT ![p] = pend[p]] ELSE old
-   /\ UNCHANGED <<head, acc, pool, done, slot, offset, lacks, broken, delivered>>
+   /\ UNCHANGED <<base, sess, head, acc, pool, done, slot, offset, lacks, broken, delivered>>
 
 Cancel(p) == GiveBack(p, "Cancel")
 Expire(p) == GiveBack(p, "Expire")
@@ -248,7 +251,22 @@ Results ==
    /\ done' = done \ { slot[offset + i].hd : i \in 1..n }
    /\ slot' = [m \in Nums |-> IF m \in (offset + 1)..(offset + n) THEN NilSlot ELSE slot[m]]
    /\ offset' = offset + n
-   /\ UNCHANGED <<head, acc, pool, queue, pend, lacks, faults, broken, old>>
+   /\ UNCHANGED <<base, sess, head, acc, pool, queue, pend, lacks, faults, broken, old>>
+
+\* ---------------------------------------------------------------- sessions
+\* A new sync session on the same queue (Downloader.synchronise): queue.Reset() puts all bookkeeping back to the initial
+\* state -- task pools, pending and done pools, the result window, the header head, the result offset -- and
+\* queue.Prepare(origin+1) positions the window at the new origin, which may lie below, at or above the previous one.
+\* What peers are known to lack is kept by the peer connections.
+MaxSess == 2
+Reset(o) ==
+   /\ sess < MaxSess /\ o \in 0..(N - 1)
+   /\ Tick([op |-> "Reset", o |-> o])
+   /\ base' = o /\ sess' = sess + 1 /\ head' = 0 /\ acc' = {} /\ pool' = {} /\ queue' = [h \in Hdrs |-> 0]
+   /\ pend' = [p \in Peers |-> <<>>] /\ done' = {} /\ slot' = [n \in Nums |-> NilSlot] /\ offset' = o
+   /\ delivered' = <<>>
+   /\ old' = IF Gen THEN [p \in Peers |-> IF pend[p] # <<>> THEN pend[p] ELSE old[p]] ELSE old
+   /\ UNCHANGED <<lacks, faults, broken>>
 
 \* ---------------------------------------------------------------- next-state relations
 NextFull ==
@@ -257,6 +275,7 @@ NextFull ==
    \/ \E p \in Peers : \E v \in Variants(p) : Deliver(p, v)
    \/ \E p \in Peers : Cancel(p) \/ Expire(p) \/ Revoke(p)
    \/ Results
+   \/ \E o \in 0..(N - 1) : Reset(o)
 
 \* small alphabet for bounded-exhaustive generation
 NextSmall ==
@@ -265,6 +284,7 @@ NextSmall ==
    \/ \E p \in Peers : \E v \in Variants(p) : Deliver(p, v)
    \/ \E p \in Peers : Expire(p)
    \/ Results
+   \/ (delivered # <<>> /\ \E o \in {0, 1} : Reset(o))       \* a second session at or below where the first one delivered
 
 Next == IF Alphabet = "small" THEN NextSmall ELSE NextFull
 Spec == Init /\ [][Next]_vars
@@ -276,8 +296,8 @@ DeliveredSet == { delivered[i].h : i \in DOMAIN delivered }
 InFlightCount(h) == Cardinality({ x \in UNION { { <<p, n>> : n \in DOMAIN pend[p] } : p \in Peers } : pend[x[1]][x[2]] = h })
 
 \* "strictly in ascending, gap-free order starting at the sync origin"
-InOrderGapFree == \A i \in DOMAIN delivered : /\ delivered[i].h \in Hdrs /\ Num(delivered[i].h) = i
-                                                /\ Par(delivered[i].h) = (IF i = 1 THEN 0 ELSE delivered[i - 1].h)
+InOrderGapFree == \A i \in DOMAIN delivered : /\ delivered[i].h \in Hdrs /\ Num(delivered[i].h) = base + i
+                                                /\ Par(delivered[i].h) = (IF i = 1 THEN base ELSE delivered[i - 1].h)
 \* "each exactly once"
 EachOnce == \A i, j \in DOMAIN delivered : i # j => delivered[i].h # delivered[j].h
 \* "only with a transaction list that matches the header's transaction root"
@@ -295,7 +315,7 @@ NeverBroken == ~broken
 ReadyMeansDone == \A n \in Nums : n > offset => ((slot[n].a /\ slot[n].p <= 0) <=> (slot[n].a /\ slot[n].hd \in done))
 PoolIsOpenWork == pool = { h \in acc : h \notin done /\ Num(h) > offset }
 
-AllDelivered == (1..N) \subseteq acc /\ Len(delivered) = N
+AllDelivered == ((base + 1)..N) \subseteq acc /\ Len(delivered) = N - base
 
 \* ---------------------------------------------------------------- liveness
 \* "the full range completes as long as some peer eventually answers honestly": every request is eventually answered or
